@@ -85,6 +85,7 @@ fn run_history(r: &mut Rng, k: u64, model: &mut model::Model, rep: &mut Report) 
         };
         let par0 = db.scan("PAR").unwrap_or_default();
         let ch0 = db.scan("CH").unwrap_or_default();
+        let gc0 = db.scan("GC").unwrap_or_default();
         let out = db.exec(&sql);
         rep.count(&format!("stmt_{}", what));
         if out.is_ok() { accepted += 1 } else { rejected += 1 }
@@ -97,6 +98,44 @@ fn run_history(r: &mut Rng, k: u64, model: &mut model::Model, rep: &mut Report) 
             rep.fail(FailKind::Oracle, None, &format!("orphan child row after a {} statement", what),
                 &format!("{}\n=> {}\norphans: {:?}", db.log.join(";\n"), out.brief(), bad));
             break;
+        }
+        // ---- correspondence: the whole DELETE with its recursive cascade (`deleteWithFks`)
+        if matches!(what, "delete_parent_one" | "delete_parent_many" | "delete_all_parents") {
+            let words: Vec<&str> = sql.split_whitespace().collect();
+            let ids: Vec<String> = par0
+                .iter()
+                .filter_map(|p| if let SqlValue::Integer(i) = p[0] { Some(i) } else { None })
+                .filter(|i| match what {
+                    "delete_parent_one" => *i == words.last().unwrap().parse::<i64>().unwrap(),
+                    "delete_parent_many" => *i >= words.last().unwrap().parse::<i64>().unwrap(),
+                    _ => true,
+                })
+                .map(|i| format!("I{}", i))
+                .collect();
+            let mut fks = format!("(1 0 (1) (0) {})", ACTIONS[d1].1);
+            let mut tabs = format!("{} {}", canon::rows_seq(&par0), canon::rows_seq(&ch0));
+            if with_gc {
+                fks.push_str(&format!(" (2 1 (1) (0) {})", ACTIONS[d2].1));
+                tabs.push_str(&format!(" {}", canon::rows_seq(&gc0)));
+            }
+            let req = format!("casc (fks {}) (tables {}) 0 (sel {})", fks, tabs, ids.join(" "));
+            let reply = model.ask(&req);
+            let code = if out.is_ok() {
+                let mut v = vec![canon::rows_seq(&db.scan("PAR").unwrap_or_default()), canon::rows_seq(&db.scan("CH").unwrap_or_default())];
+                if with_gc {
+                    v.push(canon::rows_seq(&db.scan("GC").unwrap_or_default()));
+                }
+                format!("(ok {})", v.join(" "))
+            } else {
+                "(reject)".to_string()
+            };
+            rep.count(if with_gc { "cascade_correspondence_three_tables" } else { "cascade_correspondence_two_tables" });
+            if reply != code {
+                rep.fail(FailKind::ModelDiff, None, &format!("model and code disagree on the cascade of a {} statement", what),
+                    &format!("{}\nmodel request: {}\ncode: {}\nmodel: {}", db.log.join(";\n"), req, code, reply));
+                break;
+            }
+            rep.traces_validated += 1;
         }
         // ---- correspondence on the PAR → CH key (grandchildren can veto a cascade: two-table schemas only)
         if !with_gc {
